@@ -269,12 +269,15 @@ Lemma fL_case N dd k t : In k (sw_cases r) -> rn_dec N = Some dd ->
 Proof.
   intros Hin Hd. unfold fL, apply_row_edge. cbn [fst snd]. rewrite (ccond_not_blank k _ Hin), Hd.
   assert (Ev : c_value (abs_cond U ustr (ccond k (catof k))) = evVAL k) by (unfold ccond; destruct isg; reflexivity).
+  assert (Er : isg = false -> ref_args (abs_cond U ustr (ccond k (catof k))) = [Some (evVAL k)]).
+  { intros Eg. destruct (value_facts k Eg Hin) as (_ & Hty & _). unfold ref_args. rewrite Ev. unfold ccond. rewrite Eg.
+    cbn [abs_cond cd_type c_type]. change has_group_s with has_group_type. rewrite Hty. reflexivity. }
   rewrite Ev, (evVAL_ok k Hin). unfold swcls, evOP, evTY, evARGS, evNAME, with_dec.
   destruct (sw_wait r) as [w|] eqn:Ew.
   - assert (Eg : isg = false) by (destruct isg eqn:E; [rewrite (no_wait_when_groups E) in Ew; discriminate|reflexivity]).
-    unfold ccond. rewrite Eg. cbn [abs_cond cd_variable cd_type cd_name c_variable c_type c_cname].
+    rewrite (Er Eg). unfold ccond. rewrite Eg. cbn [abs_cond cd_variable cd_type cd_name c_variable c_type c_cname].
     destruct sw_facts as (Hop & _). destruct (sw_operand r) as [|c0 op]; [contradiction|]. reflexivity.
-  - destruct isg eqn:Eg; unfold ccond; rewrite Eg; reflexivity.
+  - destruct isg eqn:Eg; [|rewrite (Er eq_refl)]; unfold ccond; rewrite Eg; reflexivity.
 Qed.
 
 (* ---------------------------------------------------------------- folding the edges of the cases *)
